@@ -305,6 +305,8 @@ class C09(Prop):
         "Pfb.C09.C09_rewriter_failure",
         "Pfb.C09.C09_follow_only_target",
         "Pfb.C09.C09_links_preserved",
+        "Pfb.C09.C09_follow_unsafe_untouched",
+        "Pfb.C09.C09_follow_unsafe_main",
         "Pfb.C09.C09_skip_error_untouched_acts",
         "Pfb.C09.C09_skip_error_untouched_partial",
         "Pfb.C09.C09_follow_links_kept_partial",
@@ -360,7 +362,8 @@ class C09(Prop):
             "trees: option lists = shuffles of 0-2 action options (--actions=<1-4 of PRINT/REPLACE/IFCHANGED/QUERY/DIFF/EXIT1/"
             "EXECUTE:true/EXECUTE:echo> or -p/-d/-r/-R/-i) and 0-2 --symlinks options (rarely an invalid value), placed before "
             "or after the files; 1-5 arguments over regular files (changed / unchanged / unparsable / re-rewritable / undecodable / "
-            "empty), symlinks (target listed or not, chains), dangling symlinks, missing names, directories (with .py, non-.py, "
+            "empty), symlinks (target listed or not, chains; with an ordinary name but a resolved path that Filename refuses: "
+            "target under 'My Project3/', 'a (copy)1/', ...), dangling symlinks, missing names, directories (with .py, non-.py, "
             "hidden, __pycache__, nested, symlink children), repeated arguments; 0-6 answers; plus a sampled (quick) / full "
             "(thorough) small scope: every action list of length <= 3 x policy placement x 4 file sequences, every file sequence "
             "of length <= 3 over 7 kinds x 12 configurations x policies; round 3: every character of a hostile file-name alphabet "
@@ -478,12 +481,15 @@ class C09(Prop):
                         tree, args = gen_c09.tree_of_kinds(list(seq), "tidy-imports")
                         B.append(dict(tool="tidy-imports", extra=[], opts=opts, tree=tree, args=args,
                                       answers=["y", "n", "y", "y"], after=idx % 2))
+        # (C) a symlink whose resolved path Filename refuses: five shapes (direct, chain, refused name only on the way,
+        #     directory child, named three times) x policies x 4 configurations, plus the D4 placement
         H = gen_c09.hostile_exhaustive(tier, rng)
         Fc = gen_c09.fault_exhaustive(tier, rng)
         P = [gen_c09.safename_probe()]
+        Ut = gen_c09.unsafe_target_exhaustive(tier, rng) if gen_c09.UNSAFE_TARGETS else []
         if tier == "thorough":
-            return P + H + Fc + A + B
-        return P + H + Fc + rng.sample(A, 90) + rng.sample(B, 90)
+            return P + H + Fc + Ut + A + B
+        return P + H + Fc + Ut + rng.sample(A, 90) + rng.sample(B, 90)
 
     # -- implementation ------------------------------------------------------
     def run_impl(self, case):
@@ -765,6 +771,15 @@ class C09(Prop):
             live_links = [a for a in link_args if facts[a].get("isfile")]
             if live_links and not any(f[0] == live_links[0] for f in failures):
                 failures.append((live_links[0], "symlink under the error policy"))
+        # --symlinks=follow in force and the link's resolved path is one `Filename` refuses (a blank, a parenthesis ...):
+        # the file cannot be processed, which is a failure on that file (not when a later action option dropped the
+        # policy action: listed finding D4, the link is then not followed at all)
+        if policy == "follow" and not policy_dropped(case) and not rejected:
+            for a in link_args:
+                r_ = facts[a].get("real")
+                if facts[a].get("isfile") and r_ and not documented_safe(os.path.join(root, r_)) \
+                        and not any(f[0] == a for f in failures):
+                    failures.append((a, "the symlink's real path is refused by Filename"))
         generic = ("EOFError" in errtext) or ("UnicodeDecodeError" in errtext)
         if rejected:
             if obs["rc"] == 0:
@@ -921,11 +936,19 @@ class C09(Prop):
                 unwritable.add(pid[n])
         for n in ((case.get("faults") or {}).get("write") or {}):
             unwritable.add(pid[n])
+        # what os.path.realpath gives for every path that exists (symlink_follow builds a Filename from it); a link
+        # and the file it resolves to have the same one.  The model decides with its own safeName.
+        realnames = []
+        for n in names:
+            r = (obs["facts"].get(n) or {}).get("real")
+            if r is not None:
+                realnames.append([pid[n], os.path.normpath(os.path.join(root, r)) if not r.startswith("//") else r[2:]])
         return [dict(op="main", tty=False, keep=bool(self._keep), opts=opts, fs=fs, rw=rw, unreadable=unreadable,
+                     realnames=realnames,
                      names=[[pid[n], os.path.join(root, n)] for n in names], unwritable=sorted(unwritable), args=[pid[a] for a in case["args"]],
                      answers=list(case.get("answers", [])), paths=[pid[n] for n in names])]
 
-    ERRCLASS = {"bad filename": "bad", "EOFError": "eof", "FileNotFoundError": "io", "IsADirectoryError": "io",
+    ERRCLASS = {"bad filename": "bad", "EOFError": "eof", "UnsafeFilenameError": "unsafe", "FileNotFoundError": "io", "IsADirectoryError": "io",
                 "OSError": "io", "PermissionError": "io", "NotADirectoryError": "io", "UnicodeDecodeError": "io"}
 
     def compare(self, case, obs, resps):
@@ -1055,6 +1078,12 @@ class C09(Prop):
         inc("n_symlink_opts_%d" % sum(1 for o in case["opts"] if o[0] == "symlinks"))
         if policy_dropped(case):
             inc("policy_dropped_by_later_action_option")
+        if any(f["islink"] and f["isfile"] and f.get("real") and not documented_safe(os.path.join(root, f["real"]))
+               for n, f in obs["facts"].items() if n in obs["expanded"]):
+            inc("symlink_argument_with_refused_real_path")
+            inc("symlink_argument_with_refused_real_path_policy_" + pol)
+        if obs["msg"] and "UnsafeFilenameError" in obs["msg"]:
+            inc("collected_UnsafeFilenameError")
         if any(obs["before"][n][:2] != obs["after"][n][:2] for n in obs["names"]):
             inc("some_file_modified")
         if obs["msg"] and "appears to be a symlink" in obs["msg"]:
